@@ -1,0 +1,11 @@
+// SPDX-FileCopyrightText: 2026 The Pion community <https://pion.ly>
+// SPDX-License-Identifier: MIT
+
+//go:build !verif
+
+// Package verifhook provides scheduling gates for model-based verification harnesses.
+// With the verif build tag off every function is an empty stub.
+package verifhook
+
+// Gate does nothing unless built with the verif tag.
+func Gate(string, any) {}
